@@ -93,12 +93,25 @@ def instances(  # pylint: disable=too-many-arguments,too-many-locals
             + ["classic"] * 2
             + (["bench"] if benchmarks else [])
             + (["wide"] if wide_ok else [])
+            + (["balanced_flex"] if flexible is not False and regular is not False and min_jobs <= 2 and max_jobs >= 2 else [])
         )
     )
     if family == "bench":
         return benchmark_case(draw(st.sampled_from(list(benchmarks))))
     durs = _durations(zero_ok, max_duration)
-    if family == "wide":
+    if family == "balanced_flex":
+        # M equally long jobs on M machines, every operation eligible on two
+        # neighbouring machines: flexible, yet every machine has the same
+        # number of eligible operations (vectorised code paths)
+        n_m = draw(st.integers(2, max(2, min(max_machines, max_jobs, 4))))
+        length = draw(st.integers(1, max(1, min(max_ops, max_total // n_m))))
+        shift = draw(st.integers(0, n_m - 1))
+        machines = [
+            [sorted({(j + p + shift) % n_m, (j + p + shift + 1) % n_m}, reverse=bool((j + p) % 2)) for p in range(length)]
+            for j in range(n_m)
+        ]
+        durations = [[draw(durs) for _ in range(length)] for _ in range(n_m)]
+    elif family == "wide":
         # many short jobs on many machines: job ids and machine ids >= 10
         # (two-digit ids), more entities than any other family has
         n_j = draw(st.integers(10, 12))
@@ -291,3 +304,28 @@ def pick(options):
     elements in generated data); shrinks to the first option."""
     options = list(options)
     return st.integers(0, 10007).map(lambda i: options[i % len(options)])
+
+
+def _fixed_permutation(n, k):
+    """A fixed, irregular permutation of range(n) (Fisher-Yates driven by a
+    linear congruential sequence seeded with k)."""
+    perm = list(range(n))
+    x = 12345 + 7919 * k
+    for t in range(n - 1, 0, -1):
+        x = (1103515245 * x + 12345) % 2**31
+        r = (x >> 8) % (t + 1)
+        perm[t], perm[r] = perm[r], perm[t]
+    return perm
+
+
+def big_classic(n_jobs, n_machines, name="big"):
+    """Deterministic classic instance (every job visits every machine once,
+    in a rotated order) for fixed cases beyond the generated sizes."""
+    return {
+        "durations": [[1 + (7 * j + 3 * p) % 9 for p in range(n_machines)] for j in range(n_jobs)],
+        "machines": [[[x] for x in _fixed_permutation(n_machines, j)] for j in range(n_jobs)],
+        "name": name,
+        "meta": {},
+        "ints": True,
+        "family": "fixed_big",
+    }
